@@ -298,12 +298,17 @@ def run_zuko(cfg):
         import _kernel
         from aspire import Aspire
 
-        probe = c11_file.one_run(cfg, os.path.join(tmpdir, "p.h5"))
+        ctx = bool(cfg.get("in_context"))
+        probe = c11_file.one_run(cfg, os.path.join(tmpdir, "p.h5"), in_context=ctx)
+        if probe.exception is not None:
+            rep.case(explorer.digest([cfg, "probe"]))
+            rep.violation(f"C12/zuko/run-raises/{probe.exception[0]}/{probe.exception[1]}", probe.exception, {"cfg": cfg, "route": "zuko"})
+            return rep.dump()
         K = probe.n_calls
         for k in range(0, K, cfg.get("stride", 2)):
             path = os.path.join(tmpdir, f"z{k}.h5")
             del LOG[:]
-            F = c11_file.one_run(cfg, path, fault_at=k)
+            F = c11_file.one_run(cfg, path, fault_at=k, in_context=ctx)
             last = LOG[-1]["bytes"] if LOG else None
             case = {"cfg": cfg, "crash_point": k, "route": "zuko+resume_from_file"}
             rep.case(explorer.digest([cfg, "z", k]), nontrivial=last is not None)
@@ -322,6 +327,13 @@ def run_zuko(cfg):
                 rep.violation("C12/zuko/primed-without-checkpoint", None, case)
             if a.flow is None:
                 rep.violation("C12/zuko/flow-not-loaded", None, case)
+            if last is not None and k % (2 * cfg.get("stride", 2)) == 0:
+                # "all loadable by the documented resume route": the resumed instance must be able to carry on
+                # with no sampler argument (everything taken from the file)
+                rr = c11_file.one_run(cfg, path, resume=True, finish_resume=True)
+                rep.case(explorer.digest([cfg, "z-resume", k]), nontrivial=True)
+                if rr.exception is not None:
+                    rep.violation(f"C12/zuko/documented-resume-route-fails/{rr.exception[0]}/{rr.exception[1]}", rr.exception, case)
             os.remove(path)
         rep.sample({"cfg": cfg, "route": "zuko+resume_from_file", "crash_points": K})
         rep.count("zuko_configs")
@@ -355,6 +367,7 @@ def run(tier, seed, workers):
     zc = [{"sampler": "smc", "N": 8, "opts": dict(SCHEDULES["adaptive"]), "cadence": c, "n_final": None, "precond": "none",
            "seed": 0, "stride": 2 if tier == "quick" else 1} for c in ((1, 2) if tier == "quick" else (1, 2, 3, 5))]
     jobs += [("run_zuko", c) for c in zc]
+    jobs += [("run_zuko", dict(c, in_context=True)) for c in zc[:2]]
     for d in pmap("checks.c12", "dispatch", jobs, workers):
         rep.merge(d)
     return rep
